@@ -96,6 +96,30 @@ Example C17_hypotheses_satisfiable :
   cell_full 3 2 vs 2 = false.
 Proof. vm_compute. repeat split; reflexivity. Qed.
 
+Fixpoint nodupb (l : list Z) : bool :=
+  match l with [] => true | x :: t => negb (existsb (Z.eqb x) t) && nodupb t end.
+Lemma nodupb_sound l : nodupb l = true -> NoDup l.
+Proof.
+  induction l as [|x t IH]; cbn [nodupb]; intros H; constructor.
+  - intros Hin. apply andb_prop in H. destruct H as [H _].
+    assert (existsb (Z.eqb x) t = true) by (apply existsb_exists; exists x; split; [exact Hin|apply Z.eqb_refl]).
+    rewrite H0 in H. discriminate.
+  - apply IH. apply andb_prop in H. apply H.
+Qed.
+
+(* C17: a valid set with a full cell and a nearly full one *)
+Example C17_writer_hypotheses_satisfiable :
+  let vs := zrange 16 32 ++ [40; 41; 42] ++ zrange 64 128 in
+  0 <= 0 <= 3 /\ NoDup vs /\ (forall x, In x vs -> 0 <= x < 12 * 4 ^ 3) /\
+  moc_max_order (moc_cells 3 0 vs) = 3.
+Proof.
+  cbv zeta. split; [lia|]. split.
+  - apply nodupb_sound. vm_compute. reflexivity.
+  - split; [|vm_compute; reflexivity].
+    intros x Hx. assert (H : forallb (fun x => (0 <=? x) && (x <? 12 * 4 ^ 3)) (zrange 16 32 ++ [40; 41; 42] ++ zrange 64 128) = true) by (vm_compute; reflexivity).
+    rewrite forallb_forall in H. specialize (H x Hx). lia.
+Qed.
+
 Print Assumptions C17_uniq_decode_encode.
 Print Assumptions C17_expansion_is_the_descendants.
 Print Assumptions C17_cells_of_one_order_are_disjoint.
@@ -107,3 +131,4 @@ Print Assumptions C17_no_cell_coarser_than_the_coverage_order.
 Print Assumptions C17_each_pixel_ends_in_its_coarsest_full_ancestor.
 Print Assumptions C17_reader_order_is_immaterial.
 Print Assumptions C17_hypotheses_satisfiable.
+Print Assumptions C17_writer_hypotheses_satisfiable.
